@@ -1,6 +1,6 @@
 (* Proofs about the merkle-root read paths (C02, C08) under the ingestion invariant of the chain library. *)
 From Coq Require Import ZArith NArith List Lia Bool.
-From BHS Require Import Work Store Chain ChainSpec StoreProofs ChainInv ChainReorg ChainAdd ChainMain Merkle.
+From BHS Require Import Work Store Chain ChainSpec StoreProofs ChainInv ChainReorg ChainAdd ChainMain ChainFields Merkle.
 Import ListNotations.
 Open Scope Z_scope.
 
@@ -378,6 +378,59 @@ Theorem valid_negative_excess s tipH excess rt h : Valid s -> tip_height s = Som
   excess < 0 -> verify1 s tipH excess (rt, h) <> UnableToVerify.
 Proof. intros HV. destruct (valid_inv s HV) as (tip & t & HI & _). apply (negative_excess_never_unable s tip). exact HI. Qed.
 
+(* ---- the same, for EVERY reachable store, any work values (zero-work headers included) ----
+   [Structural s]: some connected row [tip] exists such that the stored labels are the ones derived from [chain s tip]
+   (LONGEST_CHAIN rows = chain s tip).  ChainFields.reachable_inv delivers it for every history; what it does NOT say is
+   that this tip is the greatest-cumulative-work header (that is Inv2 / [Valid], positive work only) - the theorems
+   below never need that. *)
+Definition Structural (s : store) := exists tip, Inv s tip.
+
+Theorem reachable_structural f gid gpl hs : gid <> 0%N -> nonzero_ids hs -> Structural (run f gid gpl hs).
+Proof. exact (reachable_inv f gid gpl hs). Qed.
+
+Lemma valid_structural s : Valid s -> Structural s.
+Proof. intros (tip & HI & _). exists tip. exact HI. Qed.
+
+Lemma structural_inv s : Structural s -> exists tip t, Inv s tip /\ by_hash s tip = Some t.
+Proof. intros (tip & HI). pose proof HI as (_ & (t & Ht & _) & _). exists tip, t. auto. Qed.
+
+Theorem structural_tip_height s : Structural s -> exists t, tipB s = Some t /\ tip_height s = Some (height t).
+Proof.
+  intros HV. destruct (structural_inv s HV) as (tip & t & HI & Ht). exists t.
+  rewrite (tipB_is_tip s tip HI). split; [exact Ht| apply (tip_height_inv s tip t HI Ht)].
+Qed.
+
+Theorem structural_longest_unique s : Structural s -> forall a b, In a s -> In b s ->
+  st a = Longest -> st b = Longest -> height a = height b -> a = b.
+Proof. intros HV. destruct (structural_inv s HV) as (tip & t & HI & _). apply (L_height_unique s tip HI). Qed.
+
+Theorem structural_confirmed_iff s tipH excess rt h x : Structural s ->
+  (verify1 s tipH excess (rt, h) = Confirmed x <->
+   exists r, In r s /\ st r = Longest /\ height r = h /\ root r = rt /\ id r = x).
+Proof. intros HV. destruct (structural_inv s HV) as (tip & t & HI & _). apply (verdict_confirmed_iff s tip). exact HI. Qed.
+
+Theorem structural_unable_iff s tipH excess rt h : Structural s -> tip_height s = Some tipH ->
+  (verify1 s tipH excess (rt, h) = UnableToVerify <-> tipH < h <= tipH + excess).
+Proof. intros HV. destruct (structural_inv s HV) as (tip & t & HI & _). apply (verdict_unable_iff s tip). exact HI. Qed.
+
+Theorem structural_invalid_otherwise s tipH excess rt h : Structural s -> tip_height s = Some tipH ->
+  (verify1 s tipH excess (rt, h) = Invalid <->
+   ~ (exists r, In r s /\ st r = Longest /\ height r = h /\ root r = rt) /\ ~ (tipH < h <= tipH + excess)).
+Proof. intros HV. destruct (structural_inv s HV) as (tip & t & HI & _). apply (invalid_otherwise s tip). exact HI. Qed.
+
+Theorem structural_negative_excess s tipH excess rt h : Structural s -> tip_height s = Some tipH ->
+  excess < 0 -> verify1 s tipH excess (rt, h) <> UnableToVerify.
+Proof. intros HV. destruct (structural_inv s HV) as (tip & t & HI & _). apply (negative_excess_never_unable s tip). exact HI. Qed.
+
+Theorem structural_verify_total s excess items : Structural s -> items <> [] ->
+  exists tipH, tip_height s = Some tipH /\
+               verify s excess items = VOk (overall (answers s tipH excess items)) (answers s tipH excess items).
+Proof.
+  intros HV Hne. destruct (structural_inv s HV) as (tip & t & HI & Ht). exists (height t).
+  split; [apply (tip_height_inv s tip t HI Ht)| apply (verify_total s tip t excess items HI Ht Hne)].
+Qed.
+
+
 (* ---- a concrete history: G; A, B children of G (A first: B is a stale sibling at height 1); then C on B
         (reorganisation: B, C longest, A stale) and an orphan ---- *)
 Definition mk_pl (bits : Z) (m : N) : payload := {| p_bits := bits; p_ver := 1; p_merkle := m; p_ts := 0; p_nonce := 0 |}.
@@ -426,3 +479,17 @@ Example huge_excess_exact :
   verify1 s 2 4294967297 (9%N, 4) = UnableToVerify /\
   verify1 s 2 (-1) (9%N, 3) = Invalid.
 Proof. split; [exact ex_post_valid|]. vm_compute. repeat split; reflexivity. Qed.
+
+(* a zero-work history (the C01 finding: the zero-work child of the tip becomes the tip) is Structural, and the verdicts
+   are the theorem's: the longest-chain header at height 2 is the zero-work block 3 *)
+Definition ex_zero : list src := [mk_sub 2 1 545259519 102; mk_sub 3 2 494927873 103; mk_sub 4 1 545259519 104].
+Example ex_zero_structural :
+  Structural (run [] 1 ex_gpl ex_zero) /\
+  verify (run [] 1 ex_gpl ex_zero) 1 [(103%N, 2); (104%N, 1); (102%N, 1); (9%N, 3); (9%N, 4)] =
+    VOk OInvalid [(103%N, 2, Confirmed 3); (104%N, 1, Invalid); (102%N, 1, Confirmed 2); (9%N, 3, UnableToVerify); (9%N, 4, Invalid)].
+Proof.
+  split.
+  - apply reachable_structural; [discriminate|]. intros h Hh.
+    repeat (destruct Hh as [<-|Hh]; [vm_compute; discriminate|]). destruct Hh.
+  - vm_compute. reflexivity.
+Qed.
